@@ -659,3 +659,5 @@ for _o in OBLIGATIONS:
         _o["flags"] = "full"
 _thorough("C08.cover", "C08.negtwin")
 _untag("C03", "C03.pin_info.loop2")
+_slice({"C02.place.piece": 0, "C02.place.king": 1, "C02.place.castle": 0, "C02.place.pawn": 1, "C02.place.ep": 0, "C02.place.promo": 1}, 2)
+_slice({"C02.checked.move_new": 0, "C02.checked.move_mut": 1, "C02.checked.move_into": 1}, 2)
